@@ -132,7 +132,7 @@ class RealFloat__tiny_post(Contract):
     # the re-rounding argument (cutoff compare + re-split one digit lower) does not go through the
     # solver unbounded on 1-3 paths per mode; those path-queries are checked with pow2/bit_length
     # interpreted and every exponent / width inside [0, 20] -- a bounded stand-in, never counted as proved
-    options = {'bounded': 20, 'bounded_try_ms': 4000}
+    options = {'bounded': 20, 'bounded_try_ms': 4000, 'symbolic_tier': 'thorough'}     # ~1000 s of solver time: thorough tier
 
     def pre(self, kept, emin, n, rm):
         # call site (_round_at): self is tiny and inexact at n; kept is the rounded result at n
